@@ -46,3 +46,60 @@ PROPS["C01"] = dict(
     level_note=("Trusted: Coq kernel, extraction, OCaml driver, Go harness/generators, zlib + compress/flate as references. "
                 "The claim 'model = flate.Reader' is sampled, not proved."),
 )
+
+_XF_TRUST = ["external: Go compress/flate.Writer answers the model's deflate requests (contract K1: output is a byte-aligned "
+             "sequence of non-final blocks after Flush, deterministic, never retracts emitted bytes); compress/flate reader "
+             "is modelled by Flate.Spec (contract K2)"]
+
+PROPS["C05"] = dict(
+    rule=("histories: every call sequence up to length 3 (thorough: 4) over {Write 0/1/3/chunk/chunk+1 bytes, Flush sync/"
+          "full/index/invalid} ending in Close, for 2 (thorough: 5) configurations; random histories up to 40 calls over "
+          "random configurations (Level -2,-1,0,1,5,6,9; ChunkSize 1,2,7,16,100,default; IndexSize -1,1,2,3,default); refused "
+          "configurations. Non-trivial = any data written or more than one call; distinct by hash of (config, ops)."),
+    explanation=("Each history is run on the real xflate.Writer and on the extracted Writer model (the model's compressor "
+                 "requests are answered by the real compress/flate). Compared: per-call (count, error class), InputOffset, "
+                 "OutputOffset and the sink bytes, byte for byte. Implementation oracles: Close succeeds, xflate.NewReader + "
+                 "ReadAll returns the written bytes, Seek(0,End) = length, the same data with different Write splits gives "
+                 "the same bytes, offsets exact, invalid flush mode refused."),
+    assumptions=_XF_TRUST,
+    level_text=("Proved for the Writer model, for every compressor and every call history: OutputOffset equals the bytes "
+                "handed to the sink; invalid configurations are refused. The model is tied to xflate.Writer byte for byte on "
+                "every run. The general round-trip theorem (Reader model over Writer model output) is exercised by the "
+                "correspondence and a concrete witness; its proof is in progress (DESIGN.md C05)."),
+    level_note="Trusted: as C16, plus the external compressor contract K1 (runtime-checked by running the real library).",
+    trusted_extra=_XF_TRUST,
+)
+PROPS["C06"] = dict(
+    rule=PROPS["C05"]["rule"],
+    explanation=("Same histories as C05. Implementation oracles: the sink followed by a 4-byte canary is decoded by "
+                 "compress/flate, zlib and this repository's flate.Reader; each must return exactly the written bytes, "
+                 "consume exactly the sink and leave the canary; cuts of the sink must be incomplete (final bit only at the "
+                 "end). The Writer model is compared byte for byte."),
+    assumptions=_XF_TRUST + ["zlib and compress/flate are conforming DEFLATE decoders"],
+    level_text=("The RFC 1951 model decodes the real Writer's output completely (witness), a closed writer never appends "
+                "(all histories), and a DEFLATE verdict is independent of trailing bytes (all inputs). The general theorem "
+                "'every Writer-model output inflates to the written data' needs the compositionality lemma for byte-aligned "
+                "non-final block sequences and K1; until it is closed the claim rests on the byte-exact Writer model plus "
+                "three independent decoders on every generated history."),
+    level_note="Trusted: as C05.",
+    trusted_extra=_XF_TRUST,
+)
+PROPS["C07"] = dict(
+    rule=("streams: a 5-chunk stream with an empty chunk and two indexes, a chain of one-record indexes, the empty stream, "
+          "a single chunk, random configurations (thorough: plus a 300 KB default-chunk stream). Histories: every Seek/Read "
+          "sequence up to depth 3 (thorough: 4) on the first stream and depth 2 on the others over a boundary alphabet "
+          "(offsets -1/0/+1 around chunk edges, end+5, 2^40; whence 0..3; Read lengths 0,1,chunk-1,chunk+1,all+3), "
+          "random sequences up to 65 calls, and the D1/D2 regression histories. Distinct by hash of (stream, ops)."),
+    explanation=("Every history runs on the real xflate.Reader next to a bytes.Reader over the original data (per-call "
+                 "oracle: Seek results and refusals, data at the current position, EOF exactly at the end, progress, "
+                 "zero-length reads return within 2 s) and on the extracted Reader model (per-op results at ReadFull "
+                 "granularity). Defects D1, D2 were rediscovered by this check before being repaired."),
+    assumptions=_XF_TRUST,
+    level_text=("Proved for the Reader model for all states: zero-length Read is prompt and changes nothing; refused seeks "
+                "(bad whence, negative) leave the reader unchanged; errors are sticky; the pre-repair Seek is refuted by a "
+                "machine-checked witness and the repaired one passes it. The refinement theorem to bytes.Reader over all "
+                "histories is in progress; until then the all-history claim rests on the exhaustive/random correspondence "
+                "(0 disagreements) and the per-call oracle."),
+    level_note="Trusted: as C05.",
+    trusted_extra=_XF_TRUST,
+)
